@@ -24,6 +24,7 @@ import (
 	"time"
 
 	"github.com/apache/skywalking-banyandb/api/common"
+	"github.com/apache/skywalking-banyandb/banyand/internal/storage"
 	"github.com/apache/skywalking-banyandb/banyand/protector"
 	"github.com/apache/skywalking-banyandb/pkg/fs"
 	"github.com/apache/skywalking-banyandb/pkg/logger"
@@ -90,6 +91,33 @@ func diskParts(root string) map[uint64]bool {
 
 // settledDisk polls (bounded) until the part directories equal keep: the engine removes the files of a replaced
 // part in a goroutine of its own, so the removal may trail Close by a moment.
+// manifestParts returns the part ids named by the newest snapshot manifest on disk: what a restart will load.
+// (A table's background loops may still publish between the harness' last look at the snapshot and Close.)
+func manifestParts(fileSystem fs.FileSystem, dir string) (map[uint64]bool, bool) {
+	var newest uint64
+	found := false
+	ents, _ := os.ReadDir(dir)
+	for _, e := range ents {
+		if id, err := parseSnapshot(e.Name()); err == nil && (!found || id > newest) {
+			newest, found = id, true
+		}
+	}
+	if !found {
+		return nil, false
+	}
+	names, err := storage.ReadSnapshotPartNames(fileSystem, filepath.Join(dir, snapshotName(newest)))
+	if err != nil {
+		return nil, false
+	}
+	keep := map[uint64]bool{}
+	for _, n := range names {
+		if id, err := parseEpoch(n); err == nil {
+			keep[id] = true
+		}
+	}
+	return keep, true
+}
+
 func settledDisk(dir string, keep map[uint64]bool) (left []uint64, missing []uint64) {
 	for i := 0; i < 400; i++ {
 		left, missing = left[:0], missing[:0]
@@ -466,6 +494,9 @@ func c05Live(s *verifh.Sink, base string, fileSystem fs.FileSystem, uid *int64) 
 			snp.decRef()
 		}
 		tst.Close()
+		if mk, ok := manifestParts(fileSystem, dir); ok {
+			keep = mk
+		}
 		if firstBad.Load() == nil && stable >= 20 {
 			left, missing := settledDisk(dir, keep)
 			if len(missing) > 0 {
